@@ -183,6 +183,14 @@ def multi_chrom(res, scratch, tier):
             lines = g.lines()
             t = "".join(lines[i] + "\n" for i in list(range(len(lines)))[::-1])
             judge_run(res, scratch, t, chains, ",".join(names), None, False, "multi-chromosome, reversed line order")
+    # one long chain (320 blocks, about 1000 segments): sizes beyond any small internal threshold
+    long_blocks = (gen.BLOCKS * 40)
+    lc = gen.Chain(long_blocks, chrom="chr1", decl="alt")
+    for root, flip in ((0, False), (501, True), (None, False)):
+        judge_run(res, scratch, lc.g.text(), [lc], "chr1", root, flip, f"[chain of {len(long_blocks)} blocks, {len(lc.g.segs)} segments]")
+        res.count("long_chain_runs")
+    lines = lc.g.lines()
+    judge_run(res, scratch, "".join(l + "\n" for l in lines[::-1]), [lc], "chr1", None, False, "[long chain, reversed line order]")
     # no --chromosome_order: the documented default chr1, ..., chr22, chrX, chrY, chrM applies (and requires exactly these)
     names = [f"chr{i}" for i in range(1, 23)] + ["chrX", "chrY", "chrM"]
     comps = []
